@@ -1,10 +1,10 @@
 SPECIFICATION Spec
 CONSTANTS
-  StopRule = "minusDelay"
+  StopRule = "plusDelay"
   ChunkRule = "delayAware"
-  ReduceRule = "loop"
+  ReduceRule = "once"
   KeyRule = "fallback"
   AssignRule = "strict"
-  SeedSpace <- SeedsQuick
+  SeedSpace <- SeedsExtreme
   SizeSpace <- SizeTriplesQ
-INVARIANT LastFits
+INVARIANT NoRaise
